@@ -115,6 +115,15 @@ class C07(PropBase):
         if alias_kind:
             body = "dict[str, VwTree | int]" if alias_kind == "rec_first" else "dict[str, int | VwTree]"
             mod["decls"].append({"d": "raw", "n": "VwTree", "src": f"VwTree = typing.TypeAliasType('VwTree', {body!r})\n"})
+        # a subclass of the first class of the cycle that adds nothing (its members are all inherited), and a
+        # recursive alias written as a `type` statement (evaluated lazily, recurring as a generic argument)
+        sub_root = group[0]["d"] == "dataclass" and rng.random() < 0.3
+        if sub_root:
+            fl = "frozen=True" if group[0].get("flags", {}).get("frozen") else ""
+            mod["decls"].append({"d": "raw", "n": "VwRSub", "src": f"@dataclasses.dataclass({fl})\nclass VwRSub({group[0]['n']}):\n    pass\n"})
+        stmt_alias = rng.random() < 0.25
+        if stmt_alias:
+            mod["decls"].append({"d": "raw", "n": "VwTreeP", "src": "type VwTreeP = dict[str, VwTreeP] | int\n"})
         world = {"modules": [mod]}
         env = self.base_env(rng, fault_free=True)
         limit = rng.choice([1000, 1000, 2000, 5000]) if "reclimit" in sw else 1000
@@ -130,6 +139,10 @@ class C07(PropBase):
         roots = roots[: rng.randint(1, 4)]
         if alias_kind:
             roots.append(("alias", None, "alias"))
+        if stmt_alias:
+            roots.append(("alias", "VwTreeP", "alias"))
+        if sub_root:
+            roots.append((0, "VwRSub", "sub"))
         burst = "exhaust" in sw and rng.random() < 0.4  # an exhaustion-heavy run on few roots
         # a rejection-heavy run: many inputs that are rightly refused deep inside the recursion, with
         # valid values in between (whatever unwinding leaves behind must not add up)
@@ -159,7 +172,7 @@ class C07(PropBase):
                 bad = "reject_deep" in sw and not exhaust and rng.random() < 0.3
                 if bad:
                     levels[-1]["terminal"] = "not-a-number"
-                step = {"op": "roundtrip" if not bad else "unmarshal", "t": {"k": "raw", "src": "VwTree"}, "mod": "vw0", "vdepth": d}
+                step = {"op": "roundtrip" if not bad else "unmarshal", "t": {"k": "raw", "src": shape or "VwTree"}, "mod": "vw0", "vdepth": d}
                 step["x" if bad else "v"] = {"$chain": levels}
                 if exhaust:
                     step["exhaust"] = True
@@ -168,6 +181,16 @@ class C07(PropBase):
                 steps.append(step)
                 continue
             base = {"k": "ref", "m": "vw0", "n": group[ri]["n"]}
+            if kind == "sub":
+                # the subclass as the root: built, and given the wire form of a value of its base's shape
+                v, w = deep_pair(rng, group, "vw0", 0, rng.choice([0, 1, 2, 3]), cfg)
+                wl = copy.deepcopy(v["$chain"])
+                for lv in wl:
+                    lv["tag"] = "$dict"
+                    lv["f"] = {fk: _wire_scalar(fv) if isinstance(fv, dict) and not any(t_ in fv for t_ in ("$list", "$dict", "$tuple")) else fv for fk, fv in lv["f"].items()}
+                steps.append(rng.choice([{"op": "build", "kind": rng.choice(["marshaller", "unmarshaller", "codec"]), "t": {"k": "raw", "src": "VwRSub"}, "mod": "vw0"},
+                                         {"op": "unmarshal", "t": {"k": "raw", "src": "VwRSub"}, "x": {"$chain": wl}, "mod": "vw0", "vdepth": len(wl), "sub": True}]))
+                continue
             if rng.random() < 0.15:
                 steps.append({"op": "build", "kind": rng.choice(["marshaller", "unmarshaller", "codec"]), "t": self._root_t(base, shape, kind), "mod": "vw0"})
                 if "exhaust_scan" in sw and rng.random() < 0.5:
